@@ -73,11 +73,14 @@ PREDICATES = {
         ('store', "#1[$1[0]['id']] = {'type': $1[1]['relType'], 'target': $1[1]['target']}", ("$1[1]['target'] in ids['sense'] and $1[1]['relType'] not in SENSE_RELATIONS or ($1[1]['target'] in ids['synset'] and $1[1]['relType'] not in SENSE_SYNSET_RELATIONS)",), ('for _sense_relations(lex)',)),
     ],
     '_redundant_relation': [
-        ('new', '#1<{}>', (), ()),
-        ('new', "#2<{'type': $1[1], 'target': $1[2]}>", (), ("for _multiples(chain(((_1['id'], _2['relType'], _2['target'], (_2.get('meta') or {}).get('type')) for _1, _2 in _sense_relations(lex)), ((_3['id'], _4['relType'], _4['target'], (_4.get('meta') or {}).get('type')) for _3, _4 in _synset_relations(lex))))",)),
-        ('return', '#1', (), ()),
-        ('store', '#1[$1[0]] = #2', (), ("for _multiples(chain(((_1['id'], _2['relType'], _2['target'], (_2.get('meta') or {}).get('type')) for _1, _2 in _sense_relations(lex)), ((_3['id'], _4['relType'], _4['target'], (_4.get('meta') or {}).get('type')) for _3, _4 in _synset_relations(lex))))",)),
-        ('store', "#2['dc:type'] = $1[3]", ('$1[3]',), ("for _multiples(chain(((_1['id'], _2['relType'], _2['target'], (_2.get('meta') or {}).get('type')) for _1, _2 in _sense_relations(lex)), ((_3['id'], _4['relType'], _4['target'], (_4.get('meta') or {}).get('type')) for _3, _4 in _synset_relations(lex))))",)),
+        ('call', "#1.append(($1[0]['id'], $1[1]['relType'], $1[1]['target'], ($1[1].get('meta') or {}).get('type')))", (), ('for _sense_relations(lex)',)),
+        ('call', "#1.append(($1[0]['id'], $1[1]['relType'], $1[1]['target'], ($1[1].get('meta') or {}).get('type')))", (), ('for _synset_relations(lex)',)),
+        ('new', '#1<[]>', (), ()),
+        ('new', '#2<{}>', (), ()),
+        ('new', "#3<{'type': $1[1], 'target': $1[2]}>", (), ('for _multiples(#1)',)),
+        ('return', '#2', (), ()),
+        ('store', '#2[$1[0]] = #3', (), ('for _multiples(#1)',)),
+        ('store', "#3['dc:type'] = $1[3]", ('$1[3]',), ('for _multiples(#1)',)),
     ],
     '_missing_reverse_relation': [
         ('call', "#1.add(($1[0]['id'], $1[1]['relType'], $1[1]['target']))", (), ('for _synset_relations(lex)',)),
